@@ -470,6 +470,14 @@ def main(argv=None):
     os.environ.setdefault("OMP_NUM_THREADS", "1")
     os.environ.setdefault("OPENBLAS_NUM_THREADS", "1")
     os.environ["PYTHONDONTWRITEBYTECODE"] = "1"
+    if os.environ.get("IODATA_REPO"):
+        # scratch copy of the repository (mutation testing): import iodata from there
+        sys.path.insert(0, os.environ["IODATA_REPO"])
+    import iodata  # noqa: F401
+
+    if not str(Path(iodata.__file__).resolve()).startswith(str(REPO.resolve())):
+        print(f"INFRA-ERROR iodata imported from {iodata.__file__}, expected under {REPO}")
+        sys.exit(2)
     if a.replay:
         sys.exit(run_replay(a.prop.upper(), a.replay))
     sys.exit(run_check(a.prop.upper(), a.tier, seed))
